@@ -3,10 +3,11 @@ from .. import common as C
 from . import c07
 
 ID = "C08"
-MODULES = ["Helios.Props.C08"]
+MODULES = ["Helios.Props.C08", "Helios.Props.Code"]
 THEOREMS = [
     "Helios.CB.inv_init", "Helios.CB.inv_step", "Helios.CB.inv_run",
     "Helios.CB.never_stuck", "Helios.CB.accepted_config_live",
+    "Helios.CodeTie.beforeRequest_refines", "Helios.CodeTie.afterRequest_refines", "Helios.CodeTie.translation_clean",
 ]
 
 
